@@ -305,12 +305,22 @@ def numtab_mods():
 
 
 # ------------------------------------------------------------------------------------------------ driver
+def _only_bool_to_int(exp, got):
+    import collections
+    le, lg = collections.Counter(g4.leaves(exp)), collections.Counter(g4.leaves(got))
+    lost, gained = sorted((le - lg).elements()), sorted((lg - le).elements())
+    conv = {('bool', 'False'): ('int', '0'), ('bool', 'True'): ('int', '1')}
+    return bool(lost) and all(l in conv for l in lost) and sorted(conv[l] for l in lost) == gained
+
+
 def keyfn(tag, inp, exp, got):
     fam = tag.split('/')[0]
     if fam == 'pool':
         d = e2.divclass(exp, got)
         if d in ('value',) or d.startswith('type:'):
             d = g4.confusion(exp[1], got[1])
+            if d == 'type' and _only_bool_to_int(exp[1], got[1]):
+                d = 'type:bool->int'      # separate root cause: a True/False slice bound passed as a C integer
         form = tag.split('/')[1]
         return 'pool|%s|%s' % ('N' if form.startswith('N') else form, d)
     if tag == 'lit/floattuple' and e2.divclass(exp, got) == 'value':
